@@ -343,12 +343,46 @@ def c06_milestones(m, obs, mech):
     """milestone start = end = its bound (pin, or max over predecessors of end+gap as an instant)."""
     out = []
     tm = gen.tmap(m)
+    succ_map = None
     for t in m["tasks"]:
         if t["container"] or "effort_min" in t:
             continue
         tid = indep.tid(t["path"])
         o = obs.T.get(tid)
-        if not o or not o["sch"] or o["start"] is None or o["fwd"] is False:
+        if not o or not o["sch"] or o["start"] is None:
+            continue
+        if o["fwd"] is False:
+            # backward milestone: it happens at its deadline (own end, earliest successor start minus gap,
+            # nearest container end, project end)
+            if "end" in t:
+                bound = t["end"]
+            else:
+                dl = [obs.end]
+                for k in range(len(t["path"]) - 1, 0, -1):
+                    if "end" in tm[t["path"][:k]]:
+                        dl.append(tm[t["path"][:k]]["end"])
+                        break
+                ok = True
+                if succ_map is None:
+                    succ_map = {}
+                    for a, lst in gen.leaf_edges(m).items():
+                        for b, d, via in lst:
+                            succ_map.setdefault(b, []).append((a, d))
+                for a_path, d in succ_map.get(t["path"], []):
+                    if d.get("onstart"):
+                        ok = False
+                        break
+                    so = obs.T.get(indep.tid(a_path))
+                    if not so or not so["sch"] or so["start"] is None:
+                        ok = False
+                        break
+                    dl.append(so["start"] - timedelta(minutes=d.get("gap_min", 0)))
+                if not ok or any(dd.get("onstart") for dd in gen.all_deps(m, t, tm)):
+                    continue
+                bound = min(dl)
+            if o["start"] != bound or o["end"] != bound:
+                ms = ["alap-milestone-one-slot-before-deadline"] if (o["start"] == o["end"] and o["start"] < bound and (bound - o["start"]) <= timedelta(minutes=m["res"])) else []
+                out.append(V("C06", "alap-milestone-not-at-deadline", dict(task=tid, start=o["start"], end=o["end"], deadline=bound), ms))
             continue
         if "start" in t:
             bound = t["start"]
